@@ -666,7 +666,7 @@ fn run_phase(phase: &'static str, seed: u64, total: u64, batch: u64, jobs: u64, 
                 let (f, c) = (from.to_string(), n.to_string());
                 let (ended, out) = run_worker_keep_stdout(&[phase, &seed_s, &f, &c], Duration::from_secs(300));
                 if let Some(v) = Report::parse_stdout(&out) {
-                    r.merge_json(&v);
+                    fold(&mut r, v);
                 }
                 if matches!(ended, Ended::Exit(0, _)) {
                     from += n;
@@ -690,6 +690,22 @@ fn run_phase(phase: &'static str, seed: u64, total: u64, batch: u64, jobs: u64, 
     }
 }
 
+/// fold a worker's report into `dst`, keeping at most 4 violations per key (so
+/// that a frequent known finding cannot crowd out another violation)
+fn fold(dst: &mut Report, mut v: Value) {
+    let viols = v["impl_violations"].take();
+    dst.merge_json(&v);
+    if let Some(a) = viols.as_array() {
+        for x in a {
+            let key = x["key"].as_str().unwrap_or("");
+            let n = dst.impl_violations.iter().filter(|y| y["key"].as_str() == Some(key)).count();
+            if n < 4 {
+                dst.impl_violations.push(x.clone());
+            }
+        }
+    }
+}
+
 fn merge(dst: &mut Report, src: Report) {
     let v = json!({
         "evaluations": src.evaluations,
@@ -700,7 +716,7 @@ fn merge(dst: &mut Report, src: Report) {
         "histograms": src.histograms,
         "notes": src.notes,
     });
-    dst.merge_json(&v);
+    fold(dst, v);
 }
 
 /// a worker died (signal, abort, stack overflow, timeout) on case `index`
@@ -744,11 +760,16 @@ fn main() {
         Some("worker") => worker(&args[2..]),
         Some("run") => {
             let seed: u64 = args.get(2).and_then(|s| s.parse().ok()).unwrap_or(1);
-            let thorough = args.get(3).map(|s| s == "thorough").unwrap_or(false);
+            let tier = args.get(3).map(|s| s.as_str()).unwrap_or("quick");
+            let pick = |quick: u64, search: u64, thorough: u64| match tier {
+                "thorough" => thorough,
+                "search" => search,
+                _ => quick,
+            };
             let env_n = |k: &str, d: u64| std::env::var(k).ok().and_then(|s| s.parse().ok()).unwrap_or(d);
-            let progs = env_n("C07_PROGS", if thorough { 120_000 } else { 2_600 });
-            let matches = env_n("C07_MATCH", if thorough { 60_000 } else { 1_500 });
-            let unifies = env_n("C07_UNIFY", if thorough { 200_000 } else { 4_000 });
+            let progs = env_n("C07_PROGS", pick(15_000, 40_000, 400_000));
+            let matches = env_n("C07_MATCH", pick(5_000, 20_000, 150_000));
+            let unifies = env_n("C07_UNIFY", pick(20_000, 60_000, 600_000));
             let jobs = env_n("C07_JOBS", 4);
             let mut rep = Report::default();
             run_phase("ops", seed, ops_total(), 700, jobs, &mut rep);
